@@ -9,6 +9,14 @@ COMMON_NOTE = ("Trusted base: CPython 3.12, numpy/scipy, icontract (or vlib.atta
                "(independent of molgri, see DESIGN.md section 3.2/5). Decides only the executions produced; nothing is 'verified'.")
 
 CHECKS = {
+    "C08": dict(
+        technique="online RNG trace specification over hooked numpy.random calls + offline bitwise comparison of recorded getter digests across random histories and a fresh interpreter",
+        text="(i) every call to numpy's global generator is logged with its call site; an online checker requires that every draw made from molgri "
+             "code is preceded, with no foreign draw or seed in between, by a molgri seed() whose value is constant per call site; (ii) every "
+             "getter result in random histories (constructions of grids of mixed algorithms, larger polytope grids built first, repeated and "
+             "interleaved getters, user reseeding and draws, in-place helper filtering) is compared bit by bit with the digest a fresh interpreter "
+             "(other PYTHONHASHSEED) produced; (iii) prefix pairs grid(N) == grid(N+M)[:N] for the polytope algorithms.",
+        design_ref="5/C08"),
     "C18": dict(
         technique="invariant at a hook (icontract postcondition + snapshot on the polytope classes' __init__/divide_edges, get_nodes, get_half_of_hypercube) against independently built ideal lattices",
         text="After every construction and every divide_edges of the three real polytope classes the whole node set is compared with an "
